@@ -142,7 +142,7 @@ pub const HOSTILE: [u8; 26] = [
 ];
 
 /// Tokens used for `TokenSubst` / `Insert`: every keyword and operator of the grammar plus boundary literals.
-pub const DICT: [&str; 131] = [
+pub const DICT: [&str; 134] = [
     "void", "char", "short", "int", "signed", "unsigned", "const", "inline", "interrupt", "bank1", "bank9", "superchip",
     "ramchip", "display", "aligned(256)", "reversed", "scattered(16,1)", "holeydma", "screencode", "nopagecross",
     "if", "else", "for", "while", "do", "switch", "case", "default", "break", "continue", "return", "goto", "asm",
@@ -161,6 +161,8 @@ pub const DICT: [&str; 131] = [
     // the wrong kind (a function where a value is wanted, an inline function that is only declared)
     "'\"'", "'\\\"'", "'\u{e9}'", "\"h\u{e9}\u{65e5}\"", "\u{e9}", "(-2147483647 - 1)", "/ -1", "2147483647", "proto_only",
     "inline void proto_only();", "if (X) continue;", "strobe(main);", "X = main;",
+    // bank numbers: other banks, a huge but representable one
+    "bank2", "bank3", "bank4000000000",
 ];
 
 #[derive(Clone, Copy, Debug, PartialEq, Eq)]
@@ -257,11 +259,13 @@ pub fn line_ends(src: &[u8]) -> Vec<usize> {
 
 /// Whole lines a confused producer may splice in at a line boundary: unbalanced or operand-less
 /// directives, comment and string openers/closers.
-pub const LINES: [&str; 25] = [
+pub const LINES: [&str; 29] = [
     "#endif", "#else", "#elif 1", "#elif", "#if", "#if 0", "#if 1", "#ifdef", "#ifndef X", "#define", "#define X X", "#undef",
     "#undef X", "#include", "#include \"nofile.h\"", "#include <", "#error", "#error stop", "#", "/*", "*/", "\"", "\\",
     // ordinary-looking lines: quote characters compared on one line, non-ASCII text
     "if (X == '\"' || X == '\\\"') X = 0;", "X = '\u{e9}' + '\u{e8}' + '\u{e0}' + '\u{f9}' + '\u{e7}' + '\u{e9}' + '\u{e8}' + '\u{e0}' + '\u{f9}' + '\u{e7}' + '\u{e9}' + '\u{e8}';",
+    // the bankswitching schemes of the reference builder
+    "#define __3E__", "#define __3E_PLUS__", "#define __DPC__", "#define __DPCPLUS__",
 ];
 
 /// distinct token texts of a program, in order of first appearance
